@@ -242,5 +242,5 @@ def enum_cross(ctx):
 PROFILE = specgen.profile(depth=2, domain_rate=0.01, max_defs=5)
 PARTS = [
     Part("cross-product", check, enumerate=enum_cross, budget={"quick": None, "thorough": None}),
-    Part("histories", check, strategy=lambda ctx: cases(PROFILE, 7 if ctx.tier == "quick" else 14), budget={"quick": 100, "thorough": 1500}),
+    Part("histories", check, strategy=lambda ctx: cases(PROFILE, 7 if ctx.tier == "quick" else 14), budget={"quick": 350, "thorough": 1500}),
 ]
